@@ -126,7 +126,7 @@ class _Noop:
 
 # standard-library modules whose functions are pure functions of plain values (no I/O, no global state): admitted as the
 # specification of themselves when every argument is a plain Python value
-PURE_STDLIB = {"textwrap", "string", "posixpath", "fnmatch", "keyword", "unicodedata", "operator", "itertools", "math", "_compat_pickle", "binascii", "base64", "difflib", "shlex"}
+PURE_STDLIB = {"bisect", "heapq", "textwrap", "string", "posixpath", "fnmatch", "keyword", "unicodedata", "operator", "itertools", "math", "_compat_pickle", "binascii", "base64", "difflib", "shlex"}
 
 
 def _pure_attr(modname: str, name: str):
@@ -236,6 +236,8 @@ class ObjEval:
         self.depth = 0
         self.steps = 0
         self.special_attrs = {}  # (class qualname, attr) -> value provider
+        self._class_values: Dict[tuple, Any] = {}
+        self._module_values: Dict[tuple, Any] = {}
         self._defaults: Dict[tuple, Any] = {}
         self._memo_results: Dict[tuple, Any] = {}
         self.forced_attrs: Dict[tuple, Any] = {}  # (class qualname, attr) -> provider(instance): the abstract world's answer, whatever the instance stores
@@ -317,6 +319,14 @@ class ObjEval:
         return _MISSING
 
     def fold_class_attr(self, k: ClassInfo, name: str):
+        key = (k.qualname, name)
+        if key in self._class_values:
+            return self._class_values[key]  # a class attribute is one object for the life of the process
+        v = self._fold_class_attr(k, name)
+        self._class_values[key] = v
+        return v
+
+    def _fold_class_attr(self, k: ClassInfo, name: str):
         key = (k.qualname, name)
         if key in self._folding:
             raise Unsupported(f"cyclic class attribute {k.name}.{name}")
@@ -418,12 +428,24 @@ class ObjEval:
         if name in m.functions:
             return FuncRef(self, m.functions[name])
         if name in m.assigns and len(m.assigns[name]) == 1:
+            mkey = (m.name, name)
+            if mkey in self._module_values:
+                return self._module_values[mkey]  # a module-level name is bound once, at import, to one object
+            val = self._module_assign_value(m, name)
+            self._module_values[mkey] = val
+            return val
+        return self._module_global_rest(m, name, seen)
+
+    def _module_assign_value(self, m: Module, name: str):
+        if True:
             v = m.assigns[name][0]
             if isinstance(v, (ast.Constant, ast.Tuple, ast.List, ast.Dict, ast.BinOp, ast.UnaryOp, ast.Set)):
                 return OEvaluator(self, {}, m).ev(v)
             if isinstance(v, ast.Call) and isinstance(v.func, ast.Name) and v.func.id in ("frozenset", "set", "tuple", "list", "dict") and len(v.args) <= 1 and not v.keywords:
                 return OEvaluator(self, {}, m).ev(v)  # a container built once at import from constants
             raise Unsupported(f"module-level name {name} = {ast.unparse(v)[:40]}")
+
+    def _module_global_rest(self, m: Module, name: str, seen=None):
         if name in m.imports:
             q = m.imports[name]
             rq = self.repo.resolve_qual(q)
